@@ -1169,7 +1169,7 @@ def generate_init_statements(query_text, variables_map, join_variables_map):
     for var_name, var_info in variables_map.items():
         if var_info.initialize:
             code_lines.append('{} = safe_get(record_a, {})'.format(var_name, var_info.index))
-    if join_variables_map:
+    if join_variables_map is not None: # An empty map still means "there is a join table": `b.NR` needs its init code even when no other b-variable is used
         code_lines += generate_common_init_code(query_text, 'b')
         for var_name, var_info in join_variables_map.items():
             if var_info.initialize:
